@@ -550,8 +550,25 @@ pub fn c02_triple(chk: &Check, s: u8, d1: u8, d2: u8) {
     c02_concrete(chk, s, d1, d2, &e);
 }
 
+/// History independence of classification: every ordered pair of status bytes (with four data
+/// byte combinations each), decoded and classified back to back on one thread, both judged.
+fn c02_pairs(chk: &Check) -> u64 {
+    let data = [(0u8, 0u8), (1, 127), (127, 1), (64, 64)];
+    (0x80..=0xFFu8).into_par_iter().for_each(|s1| {
+        for &(a1, a2) in &data {
+            for s2 in 0x80..=0xFFu8 {
+                for &(b1, b2) in &data {
+                    c02_triple(chk, s1, a1, a2);
+                    c02_triple(chk, s2, b1, b2);
+                }
+            }
+        }
+    });
+    128 * 4 * 128 * 4
+}
+
 pub fn run_c02(chk: &Check) {
-    chk.rule("all 128x128x128 valid (status,d1,d2) triples x {Raw,Structured,Foreign3} through generic code, and Raw/Structured once more through method-call syntax on the concrete type (where an inherent method would shadow the trait method) and through further receiver types ((&&x).m(), (&mut x).m(), Box / Rc / Arc of x: method resolution would pick up an impl for &T, &mut T or a smart pointer if there were one): every classification method and field accessor against an independently written MIDI-1.0 table; all 256 bytes for ShortMessageType; non-trivial = distinct (impl,triple) cases in which at least one field accessor must return Some (a data-carrying channel message) or the message is Channel Mode");
+    chk.rule("all 128x128x128 valid (status,d1,d2) triples x {Raw,Structured,Foreign3} through generic code, and Raw/Structured once more through method-call syntax on the concrete type (where an inherent method would shadow the trait method) and through further receiver types ((&&x).m(), (&mut x).m(), Box / Rc / Arc of x: method resolution would pick up an impl for &T, &mut T or a smart pointer if there were one): every classification method and field accessor against an independently written MIDI-1.0 table; all 256 bytes for ShortMessageType; history independence: every ordered pair of (status byte x 4 data combinations) classified back to back on one thread; non-trivial = distinct (impl,triple) cases in which at least one field accessor must return Some (a data-carrying channel message) or the message is Channel Mode");
     let nontrivial = AtomicU64::new(0);
     (0x80..=0xFFu8).into_par_iter().for_each(|s| {
         let mut nt = 0u64;
@@ -594,6 +611,9 @@ pub fn run_c02(chk: &Check) {
         }
     }
     chk.add_eval(256);
+    let pairs = c02_pairs(chk);
+    chk.add_eval(pairs);
+    chk.push("ordered_pairs", json!({"status_bytes": 128, "data_combinations": 4, "pairs": pairs}));
     if ShortMessageType::MIN != 0x80 || ShortMessageType::MAX != 0xFF {
         vio!(chk, "C02", "type-min-max", "type", String::new(), "ShortMessageType::MIN/MAX = {:#X}/{:#X}", ShortMessageType::MIN, ShortMessageType::MAX);
     }
